@@ -54,6 +54,14 @@ def parseI : Sx → Option IOpd
     some ⟨shape, isz, vals.toArray, mask, item⟩
   | _ => none
 
+def maskAll : MaskRep → Bool
+  | .scalar b => b
+  | .array bits => bits.all id
+
+def tvlCmpSx : TvlCmpRes → Sx
+  | .whole c => .list [Sx.ofNats [], .list [t3Sx c.t3]]
+  | .elems r => outArr (r.map Cell.t3)
+
 def cmpSx : CmpRes → Sx
   | .whole b => .list [Sx.ofNats [], .list [t3Sx (if b then .t else .f)]]
   | .elems r => .list [Sx.ofNats r.shape, .list (r.toList.map fun b => t3Sx (if b then .t else .f))]
@@ -138,16 +146,12 @@ def handle : List Sx → Sx
   | [.atom "tvl_eq", a, b] =>
     match parseI a, parseI b with
     | some a, some b =>
-      match Arr.map2 tvlEqCode a.arr b.arr with
-      | some r => outArr (r.map Cell.t3)
-      | none => .atom "incompatible"
+      tvlCmpSx (tvlCmpTop true a.item b.item (maskAll a.mask) (maskAll b.mask) a.arr b.arr)
     | _, _ => err "operand"
   | [.atom "tvl_ne", a, b] =>
     match parseI a, parseI b with
     | some a, some b =>
-      match Arr.map2 tvlNeCode a.arr b.arr with
-      | some r => outArr (r.map Cell.t3)
-      | none => .atom "incompatible"
+      tvlCmpSx (tvlCmpTop false a.item b.item (maskAll a.mask) (maskAll b.mask) a.arr b.arr)
     | _, _ => err "operand"
   | [.atom "bool", tall, tany, a] =>
     match tall.toBool?, tany.toBool?, parseB a with
